@@ -310,6 +310,18 @@ def r45_handout(ctx, svc, fi, g, dom, prov, algo, out_lists) -> None:
       if len(defs) != 1:
         raise _NoEval(f'`{e.id}` has {len(defs)} reaching definitions')
       return concrete(defs[0].value, g.nodes[defs[0].node_id], env, stale_sink, depth + 1)
+    if isinstance(e, ast.ListComp) and len(e.generators) == 1 and not e.generators[0].ifs \
+        and isinstance(e.generators[0].target, ast.Name):
+      out = []
+      for v in concrete(e.generators[0].iter, node, env, stale_sink, depth + 1):
+        out.append(concrete(e.elt, node, dict(env, **{e.generators[0].target.id: v}), stale_sink, depth + 1))
+      return out
+    if isinstance(e, ast.Subscript) and not isinstance(e.slice, ast.Slice):
+      base = concrete(e.value, node, env, stale_sink, depth + 1)
+      i = concrete(e.slice, node, env, stale_sink, depth + 1)
+      if not isinstance(i, int) or not isinstance(base, list) or not (-len(base) <= i < len(base)):
+        raise _NoEval(f'index {i!r} out of range for a list of {len(base) if isinstance(base, list) else "?"} elements')
+      return base[i]
     if isinstance(e, ast.Subscript) and isinstance(e.slice, ast.Slice):
       base = concrete(e.value, node, env, stale_sink, depth + 1)
       lo = concrete(e.slice.lower, node, env, stale_sink, depth + 1) if e.slice.lower is not None else None
@@ -321,12 +333,16 @@ def r45_handout(ctx, svc, fi, g, dom, prov, algo, out_lists) -> None:
       args = [concrete(a, node, env, stale_sink, depth + 1) for a in e.args]
       if fn_ == 'len' and len(args) == 1:
         return len(args[0])
+      if fn_ == 'range' and 1 <= len(args) <= 3 and all(isinstance(a, int) for a in args):
+        return list(range(*args))
       if fn_ in ('min', 'max') and args:
         return (min if fn_ == 'min' else max)(*args) if len(args) > 1 else (min if fn_ == 'min' else max)(args[0])
       if fn_ in ('reversed', 'list', 'tuple', 'sorted') and len(args) == 1:
         return list(reversed(args[0])) if fn_ == 'reversed' else list(args[0])
-      if fn_ in ('itertools.islice',) and len(args) == 2:
-        return list(args[0])[:args[1]]
+      if fn_ in ('itertools.islice', 'islice') and len(args) == 2:
+        return list(args[0])[:max(args[1], 0)] if args[1] is not None else list(args[0])
+      if fn_ in ('itertools.islice', 'islice') and len(args) == 3:
+        return list(args[0])[args[1]:args[2]]
       raise _NoEval(f'call `{fn_}`')
     if isinstance(e, ast.BinOp) and isinstance(e.op, (ast.Add, ast.Sub)):
       l, r = concrete(e.left, node, env, stale_sink, depth + 1), concrete(e.right, node, env, stale_sink, depth + 1)
@@ -342,14 +358,14 @@ def r45_handout(ctx, svc, fi, g, dom, prov, algo, out_lists) -> None:
     if isinstance(e, ast.Name):
       defs = [d for d in rd.at(node, e.id) if d.node_id >= 0 and d.value is not None and d.kind == 'assign']
       if len(defs) == 1 and isinstance(defs[0].value, (ast.Subscript, ast.Call)) and not (
-          isinstance(defs[0].value, ast.Call) and not (dotted(defs[0].value.func) or '') in ('reversed', 'list', 'sorted', 'tuple')):
+          isinstance(defs[0].value, ast.Call) and not (dotted(defs[0].value.func) or '') in ('reversed', 'list', 'sorted', 'tuple', 'itertools.islice', 'islice')):
         inner = base_list(defs[0].value, g.nodes[defs[0].node_id], depth + 1)
         if inner:
           return inner
       return e.id
     if isinstance(e, ast.Subscript):
       return base_list(e.value, node, depth + 1)
-    if isinstance(e, ast.Call) and (dotted(e.func) or '') in ('reversed', 'list', 'sorted', 'tuple') and e.args:
+    if isinstance(e, ast.Call) and (dotted(e.func) or '') in ('reversed', 'list', 'sorted', 'tuple', 'itertools.islice', 'islice') and e.args:
       return base_list(e.args[0], node, depth + 1)
     return None
 
@@ -361,10 +377,23 @@ def r45_handout(ctx, svc, fi, g, dom, prov, algo, out_lists) -> None:
       lst = n.ast.value.func.value.id
       handouts.append((n.loops[-1], lst, 'pop', None, n))
     if n.kind == 'for' and any(a in g.reachable([n]) for a in appenders if a.loops and a.loops[-1] is n.ast):
-      bl = base_list(n.ast.iter, n)
+      itexpr_ = n.ast.iter
+      if isinstance(itexpr_, ast.Call) and dotted(itexpr_.func) == 'range' and isinstance(n.ast.target, ast.Name):
+        # index loop: `for i in range(..): x = L[f(i)]` hands out [L[f(i)] for i in range(..)]
+        subs = [st.value for st in n.ast.body if isinstance(st, ast.Assign) and isinstance(st.value, ast.Subscript)
+                and not isinstance(st.value.slice, ast.Slice)
+                and any(isinstance(x, ast.Name) and x.id == n.ast.target.id for x in ast.walk(st.value.slice))]
+        if len(subs) == 1:
+          itexpr_ = ast.copy_location(ast.ListComp(elt=subs[0], generators=[ast.comprehension(
+              target=n.ast.target, iter=n.ast.iter, ifs=[], is_async=0)]), n.ast.iter)
+          bl = base_list(subs[0].value, n)
+        else:
+          bl = None
+      else:
+        bl = base_list(n.ast.iter, n)
       if bl is None:
         raise AnalysisError(f'SuggestTrials: iterable of the hand-out loop at line {n.lineno} not understood')
-      handouts.append((n.ast, bl, 'iter', n.ast.iter, n))
+      handouts.append((n.ast, bl, 'iter', itexpr_, n))
   if len(handouts) < 2:
     raise AnalysisError(f'SuggestTrials: only {len(handouts)} hand-out loops recognised (pool and algorithm output)')
   helper = C06.OpTypestate.__new__(C06.OpTypestate)
